@@ -34,7 +34,7 @@ var libOverlay = func(files ...string) map[string][]string {
 
 func init() {
 	properties["C01"] = &PropertySpec{ID: "C01",
-		Rule:        "shapes: every atom kind alone, every combinator over literal atoms, global-pattern programs (list in harness/C01/c01.go), plus the generated family F2 = 10 quantifier forms x 10 quantifier forms x 9 structural positions (nested, sequence-in-loop, alternation-in-loop, adjacent loops, capture+back-reference under loops, inline subroutine called twice, global pattern referenced twice, subroutine / global pattern called inside every loop form) = 900 programs; code-shape lead for every program of all families plus 17 programs with counted loops of 2..4 copies around calls, alternations and lists: when the generated code does not have the expected jump-target shape (calls target the StartSubroutine of their name, loop starts/stops pair up, branch/jump/not-in targets in range) the program is compared with the reference semantics on all ASCII texts of length 0..6 (thorough 8) and a violation is reported only with a distinguishing input, otherwise the run is inconclusive; text: all ASCII strings of length 0..T (quick T=3, thorough T=4); literal bytes symbolic (printable ASCII) in the symbolic-literal group; long inputs: 12 programs with a closed-form answer on texts u^k t (k saved backtracking states, loop iterations, nested calls, captured bytes), k symbolic in [30,34], [62,66], [126,130] (thorough also [14,18], [254,258], [510,514]); the enumerated grammar family of C02 (68 400 programs), every 199th starting at 101 (thorough every 23rd) at T = 3, spans and variables against the reference matcher",
+		Rule:        "shapes: every atom kind alone, every combinator over literal atoms, global-pattern programs (list in harness/C01/c01.go), plus the generated family F2 = 10 quantifier forms x 10 quantifier forms x 9 structural positions (nested, sequence-in-loop, alternation-in-loop, adjacent loops, capture+back-reference under loops, inline subroutine called twice, global pattern referenced twice, subroutine / global pattern called inside every loop form) = 900 programs; code-shape lead for every program of all families plus 17 programs with counted loops of 2..4 copies around calls, alternations and lists: when the generated code does not have the expected jump-target shape (calls target the StartSubroutine of their name, loop starts/stops pair up, branch/jump/not-in targets in range) the program is compared with the reference semantics on all ASCII texts of length 0..6 (thorough 8) and a violation is reported only with a distinguishing input, otherwise the run is inconclusive; text: all ASCII strings of length 0..T (quick T=3, thorough T=4); literal bytes symbolic (printable ASCII) in the symbolic-literal group; `in` lists: every ordered selection of 3 options from {'a', 'b', 'bc', 'ab', 'a' to 'b'} x 4 contexts (alone, followed by a literal, under a loop, captured with back-reference) = 240 programs at T = 3; long inputs: 12 programs with a closed-form answer on texts u^k t (k saved backtracking states, loop iterations, nested calls, captured bytes), k symbolic in [30,34], [62,66], [126,130] (thorough also [14,18], [254,258], [510,514]); the enumerated grammar family of C02 (68 400 programs), every 199th starting at 101 (thorough every 23rd) at T = 3, spans and variables against the reference matcher",
 		Assumptions: []string{"ASCII text", "loop ids returned by math/rand.Int63 are pairwise distinct", "programs on which the property statement is silent (empty literals, empty/unbound back-references, named loops, whole file/line/word) are assumed away"},
 		Groups: []JobGroup{
 			{Name: "c01-concrete-literals", Overlay: libOverlay("C01/c01.go"), Pkg: "libvore", Entry: "VerifC01",
@@ -60,6 +60,10 @@ func init() {
 			{Name: "c01-wellformed", Overlay: libOverlay("C01/c01.go", "C01/wellformed.go"), Pkg: "libvore", Entry: "VerifC01WellFormed", PanicOK: true, MaxFailures: 2,
 				Args: func(tier string, l *Loaded) [][]int64 {
 					return seqArgs(countOf(l, "libvore", "VerifC01WellFormedCount"), tOf(tier, 6, 8))
+				}},
+			{Name: "c01-lists", Overlay: libOverlay("C01/c01.go", "C01/c01_lists.go"), Pkg: "libvore", Entry: "VerifC01Lists", PanicOK: true, MaxFailures: 2,
+				Args: func(tier string, l *Loaded) [][]int64 {
+					return seqArgs(countOf(l, "libvore", "VerifC01ListsCount"), 3)
 				}},
 			{Name: "c01-long", Overlay: libOverlay("C01/c01.go", "C01/c01_long.go"), Pkg: "libvore", Entry: "VerifC01Long", PanicOK: true, MaxFailures: 3, Budget: 400_000_000,
 				Args: func(tier string, l *Loaded) [][]int64 {
@@ -230,12 +234,16 @@ func init() {
 				}},
 		}}
 	properties["C13"] = &PropertySpec{ID: "C13",
-		Rule:        "18 capture-free bodies x 22 naming contexts (inline subroutine, global pattern referenced 1..3 times, prefix/suffix/loop/alternation contexts, nested globals) + 5 multi-command programs, x ASCII texts of length 0..3; Run repeated, bytecode frozen during Run (write footprint), source recompiled; process code: two definitions sharing variable names (the 16 skeleton pairs of C12 x 6-expression menu) with one command each: the result of the combined source is the concatenation of the results of the commands alone, on the texts a, 1b (thorough also the empty text); the symbolic part is the choice of expressions",
+		Rule:        "18 capture-free bodies x 22 naming contexts (inline subroutine, global pattern referenced 1..3 times, prefix/suffix/loop/alternation contexts, nested globals) + 5 multi-command programs, x ASCII texts of length 0..3; Run repeated, bytecode frozen during Run (write footprint), source recompiled; 5 bodies that can match the empty string x 6 contexts with several references and required text after the last one; process code: two definitions sharing variable names (the 16 skeleton pairs of C12 x 6-expression menu) with one command each: the result of the combined source is the concatenation of the results of the commands alone, on the texts a, 1b (thorough also the empty text); the symbolic part is the choice of expressions",
 		Assumptions: []string{"ASCII text", "capture-free bodies (name clashes are by design)"},
 		Groups: []JobGroup{
 			{Name: "c13", Overlay: libOverlay("C13/c13.go"), Pkg: "libvore", Entry: "VerifC13", PanicOK: true,
 				Args: func(tier string, l *Loaded) [][]int64 {
 					return seqArgs(countOf(l, "libvore", "VerifC13Count"), tOf(tier, 3, 3), 0)
+				}},
+			{Name: "c13-nullable", Overlay: libOverlay("C13/c13.go"), Pkg: "libvore", Entry: "VerifC13Null", PanicOK: true,
+				Args: func(tier string, l *Loaded) [][]int64 {
+					return seqArgs(countOf(l, "libvore", "VerifC13NullCount"), 3)
 				}},
 			{Name: "c13-procs", Overlay: map[string][]string{"libvore": {"common/lib.go", "C12/c12.go", "C13/c13_procs.go"}}, Pkg: "libvore", Entry: "VerifC13Procs", PanicOK: true, MaxFailures: 3,
 				Args: func(tier string, l *Loaded) [][]int64 {
@@ -528,7 +536,7 @@ func init() {
 				Args: func(tier string, l *Loaded) [][]int64 { return [][]int64{{1, 1, 1}} }},
 		}}
 	properties["C14"] = &PropertySpec{ID: "C14",
-		Rule:        "103 regexes of the supported subset (every construct alone, every quantifier incl. lazy forms on literal/class/group atoms, plain/non-capturing/named groups nested to depth 2, alternation of atoms or groups alone and under quantifiers, ^ $ anchors, numbered and named back-references incl. nested groups and adjacent variable-length groups whose division of the text is decided by a back-reference) x ASCII texts of length 0..T (quick 4, thorough 5) without \\r \\f \\v; spans and group bindings compared with an independent backtracking regex engine written in the harness",
+		Rule:        "110 regexes of the supported subset (every construct alone, every quantifier incl. lazy forms on literal/class/group atoms, plain/non-capturing/named groups nested to depth 2, alternation of atoms or groups alone and under quantifiers, ^ $ anchors, numbered and named back-references incl. nested groups and adjacent variable-length groups whose division of the text is decided by a back-reference, bounded quantifiers nested in bounded groups) x ASCII texts of length 0..T (quick 4, thorough 5) without \\r \\f \\v; spans and group bindings compared with an independent backtracking regex engine written in the harness",
 		Assumptions: []string{"texts contain no \\r, \\f, \\v (engines differ on \\s for \\v; the property excludes \\r and \\f)", "repeated bodies that match the empty string and references to unset/empty groups are assumed away", "alternatives are single atoms or groups spanning the enclosing group (ab|cd is outside the stated subset)", "\\w \\W \\b \\B, look-around, empty classes are outside the subset"},
 		Groups: []JobGroup{
 			{Name: "c14", Overlay: libOverlay("C14/c14.go"), Pkg: "libvore", Entry: "VerifC14", PanicOK: true,
@@ -608,13 +616,13 @@ func init() {
 				Args: func(tier string, l *Loaded) [][]int64 { return [][]int64{{0, 1, 1}} }},
 		}}
 	properties["C18"] = &PropertySpec{ID: "C18",
-		Rule:        "the real main() under the flag/exit/stdout/file-system model: programs {-com find, -com replace, -com replace with an empty replacement, -com that fails to compile, -src file, neither, both} x -files {one file, glob matching two, glob matching none, absent} x -replace-mode {absent, NEW, NOTHING, OVERWRITE, unknown} x symbolic booleans -json, -formatted-json, -no-output, -json-file given, -formatted-json-file given x file content of 1..2 symbolic printable bytes; exit status, stdout (exactly one JSON document equal to the library result), JSON files, per-mode file effects, invalid invocations change nothing",
+		Rule:        "the real main() under the flag/exit/stdout/file-system model: programs {-com find, -com replace, -com replace with an empty replacement, -com find all any (the JSON carries arbitrary printable characters), -com that fails to compile, -src file, neither, both} x -files {one file, glob matching two, glob matching none, absent} x -replace-mode {absent, NEW, NOTHING, OVERWRITE, unknown} x symbolic booleans -json, -formatted-json, -no-output, -json-file given, -formatted-json-file given x file content of 1..2 symbolic printable bytes; exit status, stdout (exactly one JSON document equal to the library result), JSON files, per-mode file effects, invalid invocations change nothing",
 		Assumptions: []string{"argv parsing by the flag package, process exit plumbing and stdout buffering are modelled (flag values are supplied, os.Exit/log.Fatal recorded, fmt.Print* captured); the built binary is executed only when a counterexample is replayed", "-debug, -filenames and -profile are not explored"},
 		Groups: []JobGroup{
 			{Name: "c18", Overlay: map[string][]string{"main": {"common/jsonparse.go", "C18/c18.go"}}, Pkg: "main", Entry: "VerifC18",
 				Args: func(tier string, l *Loaded) [][]int64 {
 					var out [][]int64
-					for p := int64(0); p < 7; p++ {
+					for p := int64(0); p < 8; p++ {
 						for f := int64(0); f < 4; f++ {
 							for md := int64(0); md < 5; md++ {
 								out = append(out, []int64{p, f, md, 0})
